@@ -529,16 +529,29 @@ class MethodNode(Node):
         trusted: Optional[Sequence[str]] = None,
     ) -> None:
         super().__init__(state, load_context, trusted)
-        self.children = {
-            "obj": get_tree(state["content"]["obj"], load_context, trusted=trusted),
-            "func": state["content"]["func"],
-        }
+        obj = get_tree(state["content"]["obj"], load_context, trusted=trusted)
+        func = state["content"]["func"]
+        self.children = {"obj": obj, "func": func}
+        # The audited name of a bound method is the type of the instance it is
+        # bound to plus the method name, i.e. "<module>.<class>.<method>", so
+        # that what is reported and trusted is what is handed back.
+        self.module_name = obj.module_name
+        self.class_name = f"{obj.class_name}.{func}"
         # TODO: what do we trust?
         self.trusted = self._get_trusted(trusted, [])
 
     def _construct(self):
         loaded_obj = self.children["obj"].construct()
-        method = getattr(loaded_obj, self.children["func"])
+        func_name = self.children["func"]
+        obj_type = type(loaded_obj)
+        actual = f"{get_module(obj_type)}.{obj_type.__name__}.{func_name}"
+        if actual != f"{self.module_name}.{self.class_name}":
+            # the method that would be returned is not the one that was audited
+            raise TypeError(
+                f"Method {actual} does not match the audited name "
+                f"{self.module_name}.{self.class_name}"
+            )
+        method = getattr(loaded_obj, func_name)
         return method
 
 
